@@ -43,6 +43,8 @@ def gen_case(rnd, tier, index):
     spec = wbgen.generate(rnd, knobs)
     if rnd.random() < 0.1:
         wbgen.add_lookup_gadget(rnd, spec)        # a list no input feeds behind whole-column lookups
+    if rnd.random() < 0.06:
+        wbgen.add_alias_gadget(rnd, spec)
     branch = rnd.random() < 0.1
     if branch:
         wbgen.add_branch_gadget(rnd, spec)        # branches only one of which is calculated
